@@ -3,6 +3,7 @@ C03 (key-switching family), C04 (external products), and their parts of C10 / C1
 import json
 import os
 import random
+import re
 
 from . import common, corepipe
 from .common import ToolError, log
@@ -10,7 +11,7 @@ from .common import ToolError, log
 BE = corepipe.BE
 
 
-def gen_descs(rep, wd, module, cfg, label, per_op=0, exact=False, timeout=1800, ops=None, weights=None):
+def gen_descs(rep, wd, module, cfg, label, per_op=0, exact=False, timeout=1800, ops=None, weights=None, keep=None):
     """TLC enumerates the descriptor set; a seeded, per-operation stratified subset is kept."""
     out = os.path.join(wd, label + ".descs.ndjson")
     r = common.tlc(module, cfg=cfg, env={"OUT": out}, workers=4, wd=wd, timeout=timeout)
@@ -24,6 +25,8 @@ def gen_descs(rep, wd, module, cfg, label, per_op=0, exact=False, timeout=1800, 
         row.setdefault("id", i + 1)
         if exact:
             row["scr"] = "exact"
+    if keep:
+        rows = [x for x in rows if keep(x)]
     if ops:
         rows = [x for x in rows if x["op"] in ops]
     if per_op:
@@ -49,7 +52,7 @@ def describe(e):
     outs = e["outs"]
     maj = max(outs, key=lambda o: len(o["who"]))
     odd = sorted({BE[w["b"]] for o in outs if o is not maj for w in o["who"]})
-    panics = sorted({o["panic"][:70] for o in outs if o["panic"]})
+    panics = sorted({re.sub(r"\d+", "#", o["panic"])[:90] for o in outs if o["panic"]})
     key = "%s n=%s bin=%s bkey=%s bout=%s rin=%s rout=%s dsize=%s" % (e["op"], e.get("n"), e.get("bin"), e.get("bkey"), e.get("bout"), e.get("rin"), e.get("rout"), e.get("dsize"))
     key += " xin=%d xout=%d" % (int(e.get("bin") != e.get("bkey")), int(e.get("bout") != e.get("bkey")))
     if odd:
